@@ -1,6 +1,6 @@
 #!/bin/bash
 # usage: lib/seedbatch.sh "C19 A" "C19 B" ...
-for spec in "$@"; do set -- $spec; python3 /verif/lib/seedeval.py $1 /tmp/seed-out/$1/$2 --keep-as $1-$2 2>&1 | python3 -c "
+for spec in "$@"; do set -- $spec; python3 /verif/lib/seedeval.py $1 ${SEED_OUT:-/tmp/seed-out}/$1/$2 --keep-as $1-${SEED_TAG:-}$2 2>&1 | python3 -c "
 import sys,json
 t=sys.stdin.read()
 try:
